@@ -100,6 +100,21 @@ impl QueryServerWriteTransaction {
     // reload of schema / access controls / domain info from changed entries (C04: not decided); leaves the change id and the storage transaction's time alone
     #[verifier::external_body] pub fn reload(&mut self) -> (r: Result<(), OperationError>) ensures final(self).cid == old(self).cid, final(self).be_txn.ts_max() == old(self).be_txn.ts_max(), final(self).committed == old(self).committed { unimplemented!() }
 //@extract qs_commit
+    #[verifier::external_body] pub fn get_changed_app(&self) -> (r: bool) { unimplemented!() }
+    #[verifier::external_body] pub fn get_changed_oauth2(&self) -> (r: bool) { unimplemented!() }
+    #[verifier::external_body] pub fn get_changed_oauth2_client(&self) -> (r: bool) { unimplemented!() }
+}
+// the identity-management layer's write transaction: its own published cells, then the query server's commit
+#[derive(Clone, Copy)] pub struct AppsInner { pub o: u8 }
+#[derive(Clone, Copy)] pub struct Oauth2Inner { pub o: u8 }
+#[derive(Clone, Copy)] pub struct CredSessInner { pub o: u8 }
+#[derive(Clone, Copy)] pub struct Oauth2ClientInner { pub o: u8 }
+pub struct IdmServerProxyWriteTransaction { pub qs_write: QueryServerWriteTransaction, pub applications: Txn<AppsInner>, pub oauth2rs: Txn<Oauth2Inner>, pub cred_update_sessions: Txn<CredSessInner>, pub oauth2_client_providers: Txn<Oauth2ClientInner> }
+impl IdmServerProxyWriteTransaction {
+    #[verifier::external_body] pub fn reload_applications(&mut self) -> (r: Result<(), OperationError>) ensures final(self).qs_write == old(self).qs_write { unimplemented!() }
+    #[verifier::external_body] pub fn reload_oauth2(&mut self) -> (r: Result<(), OperationError>) ensures final(self).qs_write == old(self).qs_write { unimplemented!() }
+    #[verifier::external_body] pub fn reload_oauth2_client_providers(&mut self) -> (r: Result<(), OperationError>) ensures final(self).qs_write == old(self).qs_write { unimplemented!() }
+//@extract idm_commit
 }
 }
 fn main(){}
